@@ -2108,23 +2108,27 @@ void ScriptThread::FlagWait(Event& ev)
 
 void ScriptThread::Lock(Event& ev)
 {
-    ScriptMutex *pMutex = (ScriptMutex *)ev.GetListener(1);
+    Listener* const listener = ev.GetListener(1);
 
-    if (!pMutex) {
+    if (!listener || !listener->inheritsFrom(&ScriptMutex::staticclass())) {
+        // only a mutex can be locked
         throw ScriptException("Invalid mutex.");
     }
 
+    ScriptMutex *pMutex = (ScriptMutex *)listener;
     pMutex->Lock();
 }
 
 void ScriptThread::UnLock(Event& ev)
 {
-    ScriptMutex *pMutex = (ScriptMutex *)ev.GetListener(1);
+    Listener* const listener = ev.GetListener(1);
 
-    if (!pMutex) {
+    if (!listener || !listener->inheritsFrom(&ScriptMutex::staticclass())) {
+        // only a mutex can be locked
         throw ScriptException("Invalid mutex.");
     }
 
+    ScriptMutex *pMutex = (ScriptMutex *)listener;
     pMutex->Unlock();
 }
 
